@@ -12,7 +12,7 @@ from harness.speccommon import *
 
 LEVEL_TEXT = ('Lean 4 theorems about an executable list model of Spectrum: the invariant (strictly increasing wavelengths, one value per '
               'wavelength) is preserved by crop/trim/pad/append/resample and by every history of them, also when an operation is '
-              'refused; crop keeps exactly the closed range; trim keeps first-to-last sample above tolerance; retained samples are '
+              'refused; crop keeps exactly the closed range and is covariant under a change of wavelength unit (crop_scale_covariant: no absolute tolerance can enter); trim keeps first-to-last sample above tolerance; retained samples are '
               'unaltered; trapezoid integration is linear, additive at a sample and exact on linear data; bins: one per centre, '
               'non-negative (trapezoid), power-preserving normalisation. The model is tied to the code by per-step differential testing.')
 LEVEL_NOTE = ('partial: Simpson-rule clauses (positivity/exactness of Simpson bins on uniform grids, scipy.integrate.simpson) and '
